@@ -20,7 +20,7 @@ Qed.
 (* ---------- counter exactness: TotalRead = pulled - Buffered is an invariant of every operation ---------- *)
 Definition Inv (s : reader) : Prop :=
   1 <= rcap s /\ 0 <= rr s /\ rr s <= rw s /\ rw s <= rcap s /\
-  rtotal s = rpulled s - (rw s - rr s) /\ rr s <= rtotal s /\ (0 <= rlast s -> 1 <= rtotal s).
+  rtotal s = rpulled s - (rw s - rr s) /\ rr s <= rtotal s /\ (0 <= rlast s -> rr s = rw s -> 1 <= rtotal s).
 
 Lemma sub_length l a b : 0 <= a -> a <= b -> b <= blen l -> blen (sub l a b) = b - a.
 Proof. intros. unfold sub, blen in *. rewrite firstn_length, skipn_length. lia. Qed.
@@ -38,10 +38,10 @@ Proof.
 Qed.
 Lemma nonempty_blen (l : bytes) : l <> [] -> 1 <= blen l.
 Proof. destruct l; [congruence|]. unfold blen. simpl. lia. Qed.
-Lemma note_last_ok line old t k : (0 <= old -> 1 <= t) -> 0 <= t -> 0 <= k -> (line <> [] -> 1 <= k) ->
+Lemma note_last_ok line old t k : (line = [] -> 0 <= old -> 1 <= t) -> 0 <= t -> 0 <= k -> (line <> [] -> 1 <= k) ->
   0 <= note_last line old -> 1 <= t + k.
 Proof.
-  intros H1 H2 H3 H4 H5. destruct line as [|x r]; simpl in H5; [specialize (H1 H5); lia|].
+  intros H1 H2 H3 H4 H5. destruct line as [|x r]; simpl in H5; [specialize (H1 eq_refl H5); lia|].
   assert (1 <= k) by (apply H4; discriminate). lia.
 Qed.
 
@@ -80,7 +80,8 @@ Proof.
     + destruct (src_read n (rsrc s)) as [[d0 e0] src'] eqn:Es. intros E; inversion E; subst; clear E.
       pose proof (src_read_len _ _ _ _ _ Hn Es) as Hd. assert (0 <= blen d) by (unfold blen; lia).
       unfold Inv, rcap in *. recsimpl. destruct HI as (Hc & Hr0 & Hrw & Hwc & Ht & Hrt & Hl).
-      repeat split; try lia. intros Hn0. apply (note_last_ok d (rlast s)); try lia; try assumption.
+      repeat split; try lia. intros Hn0 _.
+      apply (note_last_ok d (rlast s)); [intros _ H0; apply Hl; lia|lia|lia| |exact Hn0].
       intros Hne. apply nonempty_blen. exact Hne.
     + destruct (fill_inv s HI) as (HI1 & _). destruct (rw (fill s) =? rr (fill s)) eqn:Ef.
       * intros E; inversion E; subst. unfold Inv, set_err, rcap in *; recsimpl; exact HI1.
@@ -106,10 +107,392 @@ Proof.
   destruct ((rr s =? rw s) && (0 <=? rlast s)) eqn:E1.
   - intros E; inversion E; subst; clear E. unfold Inv, rcap, dec_total in *. recsimpl.
     destruct HI as (Hc & Hr0 & Hrw & Hwc & Ht & Hrt & Hl).
-    rewrite blit_length by (unfold blen; simpl; lia).
+    rewrite blit_length by (unfold blen in *; simpl; lia).
     assert (1 <= rtotal s) by (apply Hl; lia). assert (0 <? rtotal s = true) as -> by lia.
     repeat split; lia.
   - destruct (rr s <=? 0) eqn:E2; intros E; inversion E; subst; clear E; [exact HI|].
     unfold Inv, rcap, dec_total in *. recsimpl. destruct HI as (Hc & Hr0 & Hrw & Hwc & Ht & Hrt & Hl).
     assert (0 <? rtotal s = true) as -> by lia. repeat split; lia.
 Qed.
+
+Lemma window_len s : Inv s -> blen (window s) = rw s - rr s.
+Proof. unfold Inv, window, rcap. intros (Hc & Hr0 & Hrw & Hwc & _). apply sub_length; lia. Qed.
+
+Lemma set_err_inv s e : Inv s -> Inv (set_err s e).
+Proof. unfold Inv, set_err, rcap. recsimpl. tauto. Qed.
+
+(* consuming k bytes of the window *)
+Lemma advance_inv s r' l k : Inv s -> k = r' - rr s -> 0 <= k -> r' <= rw s -> (0 <= l -> 1 <= rtotal s + k) ->
+  Inv (advance s r' l k).
+Proof.
+  unfold Inv, advance, rcap. intros (Hc & Hr0 & Hrw & Hwc & Ht & Hrt & Hl) Hk Hk0 Hr' Hlast. recsimpl.
+  repeat split; try lia; try exact Hlast.
+Qed.
+
+Lemma rd_slice_loop_inv : forall fuel delim s d e s', Inv s -> rd_slice_loop fuel delim s = (d, e, s') ->
+  Inv s' /\ blen d <= rr s'.
+Proof.
+  induction fuel as [|f IH]; intros delim s d e s' HI; cbn [rd_slice_loop].
+  - intros E; inversion E; subst. split; [exact HI|]. unfold blen. simpl. unfold Inv in HI. lia.
+  - destruct (negb (rerr s =? 0)).
+    + intros E; inversion E; subst; clear E.
+      pose proof (window_len s HI) as Hwl. pose proof HI as (Hc & Hr0 & Hrw & Hwc & Ht & Hrt & Hl).
+      split.
+      * apply set_err_inv. apply advance_inv; try assumption; unfold buffered; try lia.
+        intros H0. apply (note_last_ok (window s) (rlast s)); [|lia|lia| |exact H0].
+        { intros Hempty H1. rewrite Hempty in Hwl. unfold blen in Hwl. simpl in Hwl. apply Hl; lia. }
+        intros Hne. apply nonempty_blen in Hne. lia.
+      * unfold set_err, advance. recsimpl. lia.
+    + destruct (fill_inv s HI) as (HI1 & Hcap & Hr1 & Hw1 & Hl1 & Ht1).
+      pose proof HI1 as (Hc & Hr0 & Hrw & Hwc & Ht & Hrt & Hl).
+      pose proof HI as (_ & Hr0' & Hrw' & _).
+      destruct (index_byte delim (sub (rbuf (fill s)) (buffered s) (rw (fill s)))) as [i|] eqn:Ei.
+      * intros E; inversion E; subst; clear E.
+        apply index_byte_bound in Ei. unfold buffered in *. rewrite sub_length in Ei by (unfold rcap in *; lia).
+        split; [apply advance_inv; try assumption; try lia|].
+        unfold advance. recsimpl. rewrite sub_length by (unfold rcap in *; lia). lia.
+      * destruct (rcap (fill s) <=? buffered (fill s)) eqn:Efull.
+        -- intros E; inversion E; subst; clear E. unfold buffered in *.
+           split; [apply advance_inv; try assumption; try lia|].
+           unfold advance, rcap in *. recsimpl. lia.
+        -- intros E. apply (IH delim (fill s) d e s' HI1 E).
+Qed.
+
+Lemma rd_slice_inv delim s d e s' : Inv s -> rd_slice delim s = (d, e, s') -> Inv s' /\ blen d <= rr s'.
+Proof.
+  intros HI. unfold rd_slice. destruct (index_byte delim (window s)) as [i|] eqn:Ei.
+  - intros E; inversion E; subst; clear E. apply index_byte_bound in Ei. rewrite (window_len s HI) in Ei.
+    pose proof HI as (Hc & Hr0 & Hrw & Hwc & Ht & Hrt & Hl).
+    split; [apply advance_inv; try assumption; try lia|].
+    unfold advance. recsimpl. rewrite sub_length by (unfold rcap in *; lia). lia.
+  - apply rd_slice_loop_inv. exact HI.
+Qed.
+
+Lemma rd_line_inv s d pre e s' : Inv s -> rd_line s = (d, pre, e, s') -> Inv s'.
+Proof.
+  intros HI. unfold rd_line. destruct (rd_slice 10 s) as [[line err] s1] eqn:Es.
+  destruct (rd_slice_inv 10 s line err s1 HI Es) as [HI1 Hlen].
+  destruct (err =? 3).
+  - destruct (rev line) as [|c rl] eqn:Er; [intros E; inversion E; subst; exact HI1|].
+    assert (Hl1 : 1 <= blen line).
+    { apply nonempty_blen. intro H0. rewrite H0 in Er. discriminate. }
+    assert (Hdec : Inv (mkR (rbuf s1) (rr s1 - 1) (rw s1) (rerr s1) (rlast s1) (rtotal s1 - 1) (rsrc s1) (rpulled s1))).
+    { unfold Inv, rcap in *. recsimpl. destruct HI1 as (Hc & Hr0 & Hrw & Hwc & Ht & Hrt & Hl).
+      repeat split; try lia. }
+    (* only the branch c = 13 un-reads; the other branches return s1 *)
+    destruct c as [|p|p]; try (intros E; inversion E; subst; exact HI1).
+    repeat (destruct p as [p|p|]; try (intros E; inversion E; subst; exact HI1)).
+    intros E; inversion E; subst. exact Hdec.
+  - destruct (rev line) as [|c rl]; [intros E; inversion E; subst; exact HI1|].
+    destruct c as [|p|p]; try (intros E; inversion E; subst; exact HI1).
+    repeat (destruct p as [p|p|]; try (intros E; inversion E; subst; exact HI1)).
+    destruct rl as [|c2 rl2]; [intros E; inversion E; subst; exact HI1|].
+    destruct c2 as [|p|p]; try (intros E; inversion E; subst; exact HI1).
+    repeat (destruct p as [p|p|]; try (intros E; inversion E; subst; exact HI1)).
+Qed.
+
+Lemma rd_peek_loop_inv : forall fuel n s, Inv s -> Inv (rd_peek_loop fuel n s).
+Proof.
+  induction fuel as [|f IH]; intros n s HI; cbn [rd_peek_loop]; [exact HI|].
+  destruct ((buffered s <? n) && (rerr s =? 0)); [|exact HI]. apply IH. apply fill_inv. exact HI.
+Qed.
+Lemma rd_peek_inv n s d e s' : Inv s -> rd_peek n s = (d, e, s') -> Inv s'.
+Proof.
+  intros HI. unfold rd_peek. destruct (n <? 0); [intros E; inversion E; subst; exact HI|].
+  destruct (rcap s <? n); [intros E; inversion E; subst; exact HI|].
+  pose proof (rd_peek_loop_inv (rfuel s) n s HI) as HI1.
+  destruct (Z.min (buffered (rd_peek_loop (rfuel s) n s)) n <? n); intros E; inversion E; subst;
+    [apply set_err_inv|]; exact HI1.
+Qed.
+
+Lemma rd_bytes_loop_inv : forall fuel delim s d e s', Inv s -> rd_bytes_loop fuel delim s = (d, e, s') -> Inv s'.
+Proof.
+  induction fuel as [|f IH]; intros delim s d e s' HI; cbn [rd_bytes_loop].
+  - intros E; inversion E; subst. exact HI.
+  - destruct (rd_slice delim s) as [[frag e1] s1] eqn:Es.
+    destruct (rd_slice_inv delim s frag e1 s1 HI Es) as [HI1 _].
+    destruct (e1 =? 0); [intros E; inversion E; subst; exact HI1|].
+    destruct (negb (e1 =? 3)); [intros E; inversion E; subst; exact HI1|].
+    destruct (rd_bytes_loop f delim s1) as [[rest e2] s2] eqn:Er.
+    intros E; inversion E; subst. apply (IH delim s1 rest e s' HI1 Er).
+Qed.
+
+Lemma write_buf_inv out s out' s' : Inv s -> write_buf out s = (out', s') -> Inv s'.
+Proof.
+  unfold write_buf. intros HI E; inversion E; subst; clear E.
+  pose proof HI as (Hc & Hr0 & Hrw & Hwc & Ht & Hrt & Hl). unfold buffered.
+  apply advance_inv; try assumption; try lia.
+Qed.
+Lemma rd_wt_loop_inv : forall fuel out s out' s', Inv s -> rd_wt_loop fuel out s = (out', s') -> Inv s'.
+Proof.
+  induction fuel as [|f IH]; intros out s out' s' HI; cbn [rd_wt_loop].
+  - intros E; inversion E; subst. apply set_err_inv. exact HI.
+  - destruct (fill_inv s HI) as (HI1 & _). destruct (rr (fill s) <? rw (fill s)).
+    + destruct (write_buf out (fill s)) as [o2 s2] eqn:Ew. intros E.
+      apply (IH o2 s2 out' s' (write_buf_inv _ _ _ _ HI1 Ew) E).
+    + intros E; inversion E; subst. exact HI1.
+Qed.
+Lemma rd_writeto_inv s d e s' : Inv s -> rd_writeto s = (d, e, s') -> Inv s'.
+Proof.
+  intros HI. unfold rd_writeto.
+  set (s0 := mkR (rbuf s) (rr s) (rw s) (rerr s) (-1) (rtotal s) (rsrc s) (rpulled s)).
+  assert (HI0 : Inv s0).
+  { unfold Inv, rcap, s0 in *. recsimpl. destruct HI as (Hc & Hr0 & Hrw & Hwc & Ht & Hrt & Hl). repeat split; lia. }
+  destruct (write_buf [] s0) as [out s1] eqn:E1.
+  pose proof (write_buf_inv _ _ _ _ HI0 E1) as HI1.
+  destruct (rd_wt_loop (rfuel s) out s1) as [out2 s2] eqn:E2.
+  pose proof (rd_wt_loop_inv _ _ _ _ _ HI1 E2) as HI2.
+  intros E; inversion E; subst. apply set_err_inv. destruct (rerr s2 =? 1); [apply set_err_inv|]; exact HI2.
+Qed.
+
+(* every modelled Reader operation preserves the invariant, and its observation reports the new state *)
+Ltac step_fin :=
+  let H := fresh "H" in let E := fresh "E" in
+  match goal with
+  | |- context [rd_writeto ?s] => destruct (rd_writeto s) as [[? ?] ?] eqn:E; intros H; inversion H; subst;
+      split; [eapply rd_writeto_inv; eassumption|eexists; reflexivity]
+  | |- context [rd_line ?s] => destruct (rd_line s) as [[[? ?] ?] ?] eqn:E; intros H; inversion H; subst;
+      split; [eapply rd_line_inv; eassumption|eexists; reflexivity]
+  | |- context [rd_unread ?s] => destruct (rd_unread s) as [? ?] eqn:E; intros H; inversion H; subst;
+      split; [eapply rd_unread_inv; eassumption|eexists; reflexivity]
+  | |- context [rd_bytes ?d ?s] => destruct (rd_bytes d s) as [[? ?] ?] eqn:E; intros H; inversion H; subst;
+      split; [eapply rd_bytes_loop_inv; eassumption|eexists; reflexivity]
+  | |- context [rd_slice ?d ?s] => destruct (rd_slice d s) as [[? ?] ?] eqn:E; intros H; inversion H; subst;
+      split; [eapply rd_slice_inv; eassumption|eexists; reflexivity]
+  | |- context [rd_peek ?n ?s] => destruct (rd_peek n s) as [[? ?] ?] eqn:E; intros H; inversion H; subst;
+      split; [eapply rd_peek_inv; eassumption|eexists; reflexivity]
+  | |- context [rd_byte ?s] => destruct (rd_byte s) as [[? ?] ?] eqn:E; intros H; inversion H; subst;
+      split; [eapply rd_byte_loop_inv; eassumption|eexists; reflexivity]
+  | |- context [rd_read ?n ?s] =>
+      let En := fresh "En" in destruct (n <? 0) eqn:En; [discriminate|];
+      destruct (rd_read n s) as [[? ?] ?] eqn:E; intros H; inversion H; subst;
+      split; [eapply rd_read_inv; [eassumption| |eassumption]; lia|eexists; reflexivity]
+  end.
+
+Lemma reader_step_inv op s o s' : Inv s -> reader_step op s = Some (o, s') ->
+  Inv s' /\ exists ret, o = VL [VL ret; VZ (rtotal s'); VZ (rpulled s'); VZ (buffered s')].
+Proof.
+  intros HI. unfold reader_step.
+  destruct op as [z|b|l]; try discriminate.
+  destruct l as [|[tag| |] l]; try discriminate.
+  destruct tag as [|p|p]; try discriminate.
+  repeat (destruct p as [p|p|]; try discriminate).
+  all: destruct l as [|[n| |] [|? ?]]; try discriminate.
+  all: step_fin.
+Qed.
+
+Theorem reader_run_counts : forall ops s obs, Inv s -> reader_run ops s = Some obs ->
+  Forall (fun o => exists ret t p b, o = VL [VL ret; VZ t; VZ p; VZ b] /\ t = p - b /\ 0 <= b) obs.
+Proof.
+  induction ops as [|op ops IH]; intros s obs HI; cbn [reader_run].
+  - intros E; inversion E; subst. constructor.
+  - destruct (reader_step op s) as [[o s1]|] eqn:Es; [|discriminate].
+    destruct (reader_step_inv op s o s1 HI Es) as [HI1 [ret Ho]].
+    destruct (reader_run ops s1) as [os|] eqn:Er; [|discriminate].
+    intros E; inversion E; subst. constructor; [|apply (IH s1 os HI1 Er)].
+    exists ret, (rtotal s1), (rpulled s1), (buffered s1). split; [reflexivity|].
+    unfold Inv, buffered in *. lia.
+Qed.
+
+Lemma new_reader_inv size src : Inv (new_reader size src).
+Proof.
+  unfold Inv, new_reader, rcap, blen. recsimpl. rewrite repeat_length.
+  destruct (size <? 16) eqn:E; repeat split; try lia.
+Qed.
+
+(* ---------- Writer: TotalWrite = bytes handed to the sink + bytes buffered, after every operation ---------- *)
+Definition WInvN (nn : Z) (s : writer) : Prop :=
+  wtotal s + nn = blen (wout s) + blen (wbuf s) /\ blen (wbuf s) <= wcap s /\ 0 < wcap s.
+Definition WInv (s : writer) : Prop := WInvN 0 s.
+
+Ltac wsimpl := cbn [wbuf wcap werr wtotal wsink wout] in *.
+Lemma blen_app (a b : bytes) : blen (a ++ b) = blen a + blen b.
+Proof. unfold blen. rewrite app_length. lia. Qed.
+Lemma blen_firstn (k : Z) (l : bytes) : 0 <= k <= blen l -> blen (firstn (Z.to_nat k) l) = k.
+Proof. unfold blen. rewrite firstn_length. lia. Qed.
+Lemma blen_skipn (k : Z) (l : bytes) : 0 <= k <= blen l -> blen (skipn (Z.to_nat k) l) = blen l - k.
+Proof. unfold blen. rewrite skipn_length. lia. Qed.
+Lemma blen_nonneg (l : bytes) : 0 <= blen l.
+Proof. unfold blen. lia. Qed.
+
+Lemma sink_write_spec p s k e s1 : sink_write p s = (k, e, s1) ->
+  0 <= k <= blen p /\ blen (wout s1) = blen (wout s) + k /\ wbuf s1 = wbuf s /\ wcap s1 = wcap s /\
+  wtotal s1 = wtotal s /\ werr s1 = werr s.
+Proof.
+  unfold sink_write. pose proof (blen_nonneg p). destruct (wsink s) as [|[lim e0] rest].
+  - intros E; inversion E; subst. wsimpl. rewrite blen_app. repeat split; lia.
+  - intros E; inversion E; subst. wsimpl. rewrite blen_app, blen_firstn by lia. repeat split; lia.
+Qed.
+
+Lemma w_flush_inv nn s e s' : WInvN nn s -> w_flush s = (e, s') ->
+  WInvN nn s' /\ (e = 0 -> werr s = 0 -> wbuf s' = []) /\ (e <> 0 -> werr s' <> 0) /\ (e = 0 -> werr s' = werr s).
+Proof.
+  unfold w_flush, WInvN. intros (Ht & Hb & Hc).
+  destruct (negb (werr s =? 0)) eqn:Ee.
+  - intros E; inversion E; subst. repeat split; try assumption; try lia.
+  - destruct (wbuf s) as [|x b] eqn:Eb.
+    + intros E; inversion E; subst. rewrite Eb. repeat split; try assumption; try lia.
+    + rewrite <- Eb in *. destruct (sink_write (wbuf s) s) as [[k e0] s1] eqn:Es.
+      destruct (sink_write_spec _ _ _ _ _ Es) as (Hk & Ho & Hbuf & Hcap & Htot & Herr).
+      destruct (negb ((if (k <? blen (wbuf s)) && (e0 =? 0) then 7 else e0) =? 0)) eqn:E1.
+      * intros E; inversion E; subst; clear E. unfold w_set. wsimpl. rewrite blen_skipn by lia.
+        repeat split; try lia.
+      * intros E; inversion E; subst; clear E. unfold w_set. wsimpl.
+        assert (k = blen (wbuf s)).
+        { destruct (k <? blen (wbuf s)) eqn:Ek, (e0 =? 0) eqn:E0; simpl in E1; try discriminate; lia. }
+        change (blen []) with 0. repeat split; try lia.
+Qed.
+
+Lemma w_write_loop_inv : forall fuel direct p nn s p' nn' s', WInvN nn s -> 0 <= nn ->
+  w_write_loop fuel direct p nn s = (p', nn', s') ->
+  WInvN nn' s' /\ 0 <= nn' /\ (werr s' = 0 -> blen p' <= avail s').
+Proof.
+  induction fuel as [|f IH]; intros direct p nn s p' nn' s' HI Hnn; cbn [w_write_loop].
+  - intros E; inversion E; subst. unfold w_set, WInvN in *. wsimpl. repeat split; try lia; try discriminate.
+  - destruct ((avail s <? blen p) && (werr s =? 0)) eqn:Ec.
+    + assert (Hgen : forall s2 n2 p2, WInvN n2 s2 -> 0 <= n2 -> w_write_loop f direct p2 n2 s2 = (p', nn', s') ->
+                WInvN nn' s' /\ 0 <= nn' /\ (werr s' = 0 -> blen p' <= avail s')) by (intros; eapply IH; eassumption).
+      assert (Hbuf : forall n, n = avail s ->
+         (let s1 := w_set s (wbuf s ++ firstn (Z.to_nat n) p) (werr s) in
+          let '(_, s2) := w_flush s1 in w_write_loop f direct (skipn (Z.to_nat n) p) (nn + n) s2) = (p', nn', s') ->
+         WInvN nn' s' /\ 0 <= nn' /\ (werr s' = 0 -> blen p' <= avail s')).
+      { intros n Hn. cbn zeta.
+        destruct (w_flush (w_set s (wbuf s ++ firstn (Z.to_nat n) p) (werr s))) as [fe s2] eqn:Ef.
+        assert (HI1 : WInvN (nn + n) (w_set s (wbuf s ++ firstn (Z.to_nat n) p) (werr s))).
+        { unfold WInvN, w_set, avail in *. wsimpl. destruct HI as (Ht & Hb & Hcp).
+          rewrite blen_app, blen_firstn by lia. repeat split; lia. }
+        destruct (w_flush_inv _ _ _ _ HI1 Ef) as (HI2 & _).
+        apply Hgen; [exact HI2|]. unfold avail, WInvN in *. lia. }
+      destruct direct.
+      * destruct (wbuf s) as [|x b] eqn:Eb.
+        -- destruct (sink_write p s) as [[k e] s1] eqn:Es.
+           destruct (sink_write_spec _ _ _ _ _ Es) as (Hk & Ho & Hbf & Hcap & Htot & Herr).
+           apply Hgen; [|lia]. unfold WInvN, w_set in *. wsimpl. rewrite Hbf, Eb in *. lia.
+        -- rewrite <- Eb in *. apply Hbuf. reflexivity.
+      * apply Hbuf. reflexivity.
+    + intros E; inversion E; subst. split; [exact HI|]. split; [exact Hnn|]. intros He. unfold avail in *. lia.
+Qed.
+
+Lemma w_write_gen_inv direct p s n e s' : WInv s -> w_write_gen direct p s = (n, e, s') -> WInv s'.
+Proof.
+  unfold w_write_gen, WInv. intros HI.
+  destruct (w_write_loop (length p + length (wsink s) + 3) direct p 0 s) as [[p' nn] s1] eqn:El.
+  destruct (w_write_loop_inv _ _ _ _ _ _ _ _ HI ltac:(lia) El) as (HI1 & Hnn & Hav).
+  destruct (negb (werr s1 =? 0)) eqn:Ee; intros E; inversion E; subst; clear E;
+    unfold WInvN, w_add_total, w_set, avail in *; wsimpl.
+  - lia.
+  - rewrite blen_app. specialize (Hav ltac:(lia)). pose proof (blen_nonneg p'). lia.
+Qed.
+
+Lemma w_write_byte_inv c s e s' : WInv s -> w_write_byte c s = (e, s') -> WInv s'.
+Proof.
+  unfold w_write_byte, WInv. intros HI. destruct (negb (werr s =? 0)) eqn:Ee; [intros E; inversion E; subst; exact HI|].
+  destruct (avail s <=? 0) eqn:Ea.
+  - destruct (w_flush s) as [fe s1] eqn:Ef. destruct (w_flush_inv _ _ _ _ HI Ef) as (HI1 & Hempty & _).
+    destruct (negb (fe =? 0)) eqn:Efe; intros E; inversion E; subst; clear E; [exact HI1|].
+    assert (Hb : wbuf s1 = []) by (apply Hempty; lia). unfold WInvN, w_add_total, w_set in *. wsimpl. rewrite Hb in *.
+    cbn [app] in *. change (blen [c]) with 1. change (blen []) with 0 in *. lia.
+  - cbn [negb Z.eqb]. intros E; inversion E; subst; clear E.
+    unfold WInvN, w_add_total, w_set, avail in *. wsimpl. rewrite blen_app. change (blen [c]) with 1. lia.
+Qed.
+
+Lemma w_readfrom_loop_inv : forall fuel src n s early n' e' s', WInvN n s -> 0 <= n ->
+  w_readfrom_loop fuel src n s = (early, (n', e', s')) ->
+  match early with
+  | Some (n1, e1, s1) => WInv s1
+  | None => WInvN n' s' /\ 0 <= n'
+  end.
+Proof.
+  induction fuel as [|f IH]; intros src n s early n' e' s' HI Hn; cbn [w_readfrom_loop].
+  - intros E; inversion E; subst. split; assumption.
+  - destruct (avail s =? 0) eqn:Ea.
+    + destruct (w_flush s) as [fe s1] eqn:Ef. destruct (w_flush_inv _ _ _ _ HI Ef) as (HI1 & Hempty & Hne & Hsame).
+      destruct (negb (fe =? 0)) eqn:Efe.
+      * intros E; inversion E; subst; clear E. unfold WInv, WInvN, w_add_total in *. wsimpl. lia.
+      * destruct (src_read (avail s1) src) as [[d e] src'] eqn:Es.
+        assert (Hroom : 0 <= avail s1) by (unfold avail, WInvN in *; lia).
+        pose proof (src_read_len _ _ _ _ _ Hroom Es) as Hd. pose proof (blen_nonneg d).
+        destruct (blen d =? 0); [intros E; inversion E; subst; split; assumption|].
+        assert (HI2 : WInvN (n + blen d) (w_set s1 (wbuf s1 ++ d) (werr s1))).
+        { unfold WInvN, w_set, avail in *. wsimpl. rewrite blen_app. lia. }
+        destruct (negb (e =? 0)); [intros E; inversion E; subst; split; [exact HI2|lia]|].
+        intros E. apply (IH _ _ _ _ _ _ _ HI2 ltac:(lia) E).
+    + destruct (src_read (avail s) src) as [[d e] src'] eqn:Es.
+      assert (Hroom : 0 <= avail s) by (unfold avail, WInvN in *; lia).
+      pose proof (src_read_len _ _ _ _ _ Hroom Es) as Hd. pose proof (blen_nonneg d).
+      cbn [negb Z.eqb].
+      destruct (blen d =? 0); [intros E; inversion E; subst; split; assumption|].
+      assert (HI2 : WInvN (n + blen d) (w_set s (wbuf s ++ d) (werr s))).
+      { unfold WInvN, w_set, avail in *. wsimpl. rewrite blen_app. lia. }
+      destruct (negb (e =? 0)); [intros E; inversion E; subst; split; [exact HI2|lia]|].
+      intros E. apply (IH _ _ _ _ _ _ _ HI2 ltac:(lia) E).
+Qed.
+
+Lemma w_readfrom_inv src s n e s' : WInv s -> w_readfrom src s = (n, e, s') -> WInv s'.
+Proof.
+  unfold w_readfrom. intros HI.
+  destruct (w_readfrom_loop _ src 0 s) as [early [[n1 e1] s1]] eqn:El.
+  pose proof (w_readfrom_loop_inv _ _ _ _ _ _ _ _ HI ltac:(lia) El) as H.
+  destruct early as [[[n2 e2] s2]|].
+  - intros E; inversion E; subst. exact H.
+  - destruct H as [HI1 Hn1].
+    destruct (e1 =? 1).
+    + destruct (avail s1 =? 0).
+      * destruct (w_flush s1) as [fe s2] eqn:Ef. destruct (w_flush_inv _ _ _ _ HI1 Ef) as (HI2 & _).
+        intros E; inversion E; subst. unfold WInv, WInvN, w_add_total in *. wsimpl. lia.
+      * intros E; inversion E; subst. unfold WInv, WInvN, w_add_total in *. wsimpl. lia.
+    + intros E; inversion E; subst. unfold WInv, WInvN, w_add_total in *. wsimpl. lia.
+Qed.
+
+Lemma writer_step_inv op s o s' : WInv s -> writer_step op s = Some (o, s') ->
+  WInv s' /\ exists ret, o = VL [VL ret; VZ (wtotal s'); VZ (blen (wout s')); VZ (blen (wbuf s'))].
+Proof.
+  intros HI. unfold writer_step.
+  destruct op as [z|b|l]; try discriminate.
+  destruct l as [|[tag| |] l]; try discriminate.
+  destruct tag as [|p|p]; try discriminate.
+  repeat (destruct p as [p|p|]; try discriminate).
+  all: destruct l as [|x [|? ?]]; try discriminate.
+  all: try (destruct x as [c|d|src]; try discriminate).
+  all: try (destruct (dec_script (VL src)) as [sc|]; [|discriminate]).
+  all: match goal with
+  | |- context [w_readfrom ?sc ?s] => destruct (w_readfrom sc s) as [[? ?] ?] eqn:E; intros H; inversion H; subst;
+      split; [eapply w_readfrom_inv; eassumption|eexists; reflexivity]
+  | |- context [w_flush ?s] => destruct (w_flush s) as [? ?] eqn:E; intros H; inversion H; subst;
+      split; [eapply w_flush_inv; eassumption|eexists; reflexivity]
+  | |- context [w_write_byte ?c ?s] => destruct (w_write_byte c s) as [? ?] eqn:E; intros H; inversion H; subst;
+      split; [eapply w_write_byte_inv; eassumption|eexists; reflexivity]
+  | |- context [w_write_string ?d ?s] => destruct (w_write_string d s) as [[? ?] ?] eqn:E; intros H; inversion H; subst;
+      split; [eapply w_write_gen_inv; eassumption|eexists; reflexivity]
+  | |- context [w_write ?d ?s] => destruct (w_write d s) as [[? ?] ?] eqn:E; intros H; inversion H; subst;
+      split; [eapply w_write_gen_inv; eassumption|eexists; reflexivity]
+  end.
+Qed.
+
+Theorem writer_run_counts : forall ops s obs, WInv s -> writer_run ops s = Some obs ->
+  Forall (fun o => (exists ret t k b, o = VL [VL ret; VZ t; VZ k; VZ b] /\ t = k + b) \/ exists out, o = VB out) obs.
+Proof.
+  induction ops as [|op ops IH]; intros s obs HI; cbn [writer_run].
+  - intros E; inversion E; subst. constructor; [right; eexists; reflexivity|constructor].
+  - destruct (writer_step op s) as [[o s1]|] eqn:Es; [|discriminate].
+    destruct (writer_step_inv op s o s1 HI Es) as [HI1 [ret Ho]].
+    destruct (writer_run ops s1) as [os|] eqn:Er; [|discriminate].
+    intros E; inversion E; subst. constructor; [|apply (IH s1 os HI1 Er)].
+    left. exists ret, (wtotal s1), (blen (wout s1)), (blen (wbuf s1)). split; [reflexivity|].
+    unfold WInv, WInvN in HI1. lia.
+Qed.
+
+Lemma new_writer_inv size sink : WInv (new_writer size sink).
+Proof. unfold WInv, WInvN, new_writer. wsimpl. change (blen []) with 0. destruct (size <=? 0) eqn:E; lia. Qed.
+
+Theorem totalread_exact size src ops obs : reader_run ops (new_reader size src) = Some obs ->
+  Forall (fun o => exists ret t p b, o = VL [VL ret; VZ t; VZ p; VZ b] /\ t = p - b /\ 0 <= b) obs.
+Proof. apply reader_run_counts. apply new_reader_inv. Qed.
+Theorem totalwrite_exact size sink ops obs : writer_run ops (new_writer size sink) = Some obs ->
+  Forall (fun o => (exists ret t k b, o = VL [VL ret; VZ t; VZ k; VZ b] /\ t = k + b) \/ exists out, o = VB out) obs.
+Proof. apply writer_run_counts. apply new_writer_inv. Qed.
+
+Lemma totalread_example :
+  run_C22 (VL [VZ 1; VZ 16; VL [VL [VB [97;98]; VZ 0]; VL [VB [99;100;101;10]; VZ 0]]; VL [VL [VZ 2]; VL [VZ 4; VZ 10]]])
+  = VL [VL [VL [VZ 97; VZ 0]; VZ 1; VZ 2; VZ 1]; VL [VL [VB [98;99;100;101;10]; VZ 0]; VZ 6; VZ 6; VZ 0]].
+Proof. vm_compute. reflexivity. Qed.
